@@ -236,7 +236,7 @@ func (g *Gen) next() string {
 		}
 		return g.next()
 	case k < 14: // script: the lease's expiry is moved just before / after the handler's clock, then the client comes back
-		off := r.Pick(-600, -5, 5, 600)
+		off := r.Pick(-600, -30, 30, 600)
 		g.queue = append(g.queue,
 			func() string { return "E," + cidTok(id, g.macs) + "," + strconv.Itoa(off) },
 			func() string {
@@ -360,7 +360,7 @@ func (g *Gen) next() string {
 	case k < 90:
 		return "U," + hxmac(g.macs[id.mac])
 	case k < 94: // a lease's expiry moved to just before / after the handler's clock, or far away (verif hook)
-		return "E," + cidTok(id, g.macs) + "," + strconv.Itoa(r.Pick(-600, -5, 5, 600))
+		return "E," + cidTok(id, g.macs) + "," + strconv.Itoa(r.Pick(-600, -30, 30, 600))
 	default: // MinuteTicker: well before / after the 4 h lease end (the real clock moves < 1 min per history)
 		return "T," + strconv.Itoa(r.Pick(0, 3600, 13800, 15000, 15000, 30000))
 	}
@@ -520,12 +520,12 @@ func Exhaustive(r *lib.Run, mode int, depth int, nTokens int) {
 		Msg{Kind: 'R', Chaddr: m1, Xid: 0x11111111, Req: &a2, Sid: &c.HostIP}.Token(),
 		Msg{Kind: 'R', Chaddr: m2, Xid: 0x22222222, Req: &a2, Sid: &c.HostIP}.Token(),
 		Msg{Kind: 'R', Chaddr: m1, Xid: 0x11111111, Ciaddr: a2}.Token(), // renew
-		"E," + cid1 + ",-5",
+		"E," + cid1 + ",-30",
 		Msg{Kind: 'X', Chaddr: m1, Xid: 0x11111111, Req: &a2, Sid: &c.HostIP}.Token(),
 		"T,15000",
 		"C," + hxmac(m1),
 		Msg{Kind: 'L', Chaddr: m1, Xid: 0x11111111, Ciaddr: a2, Sid: &c.HostIP}.Token(),
-		"E," + cid1 + ",5",
+		"E," + cid1 + ",30",
 		Msg{Kind: 'D', Chaddr: m1, Xid: 0x33333333, HasCid: true, Cid: []byte{0xb2}, Req: &a2}.Token(), // second client id behind m1
 		Msg{Kind: 'R', Chaddr: m1, Xid: 0x33333333, HasCid: true, Cid: []byte{0xb2}, Req: &a2, Sid: &c.HostIP}.Token(),
 		Msg{Kind: 'D', Chaddr: m2, Xid: 0x22222222}.Token(),
